@@ -73,7 +73,8 @@ CLAIMED = {
              "breaks it); no call site in FourierFilter passes a swallowed keyword (decide). Props/C09All discharges the remaining hypothesis with the "
              "conversion laws (path law for values C03/C04, chain rule for slopes): for all pairs of variants (X,Y),(X',Y'), inputs that are pointwise "
              "conversions of one another (values and uncertainties; r>0, Q>0) give nine outputs that are the pointwise conversions of one another "
-             "(P_variants_physically_agree). Oracle converts all 12 variants' outputs to (g, Q[S-1]) on the real code.", ref="8 (C09), 41",
+             "(P_variants_physically_agree); a variant called without uncertainties returns on all nine outputs what it returns for zero vectors "
+             "(P_variant_none_eq_zeros). Oracle converts all 12 variants' outputs to (g, Q[S-1]) on the real code.", ref="8 (C09), 41",
              tech="Lean 4 definitional-unfolding theorems on translator output + call-binding facts + conversion oracle"),
  "C01": dict(text="Theorems on regenerated F_to_G/G_to_F/S_to_g/g_to_S for every N>=1, dr>0 on the matched grids r_j=j dr, "
              "Q_k=k pi/(N dr): G_to_F(F_to_G f) = f and F_to_G(G_to_F G) = G for all data vanishing at both ends (DST-I orthogonality from a "
